@@ -545,6 +545,10 @@ class Trace:
         self.dtypes = False  # opt-in: conversions to a floating dtype stay visible as  asfloat(x),  other casts as  ascast(x, dtype)
         self.floats = []     # nodes that bring a floating value into the evaluated code without leaving a mark in the values: float
                              # literals (1.0 * x is x), true divisions, casts the evaluator writes as the identity
+        self.lost = []       # (what, node): effects the evaluator could not attribute to an array it tracks (a store through a name whose value is
+                             # not a view of a known array, a tracked array handed to an own helper that is not followed): the recorded content of
+                             # the arrays may then be incomplete, so nothing that is read from them may be judged
+        self.compvars = {}   # key of a comp(...) value -> name of its own loop symbol
 
 
 def module_names(mod):
@@ -589,14 +593,28 @@ def _module_consts(src, rel):
         return dict(m._c10_consts)
     out = {}
     ev = AutoEvaluator(None, src=src)
+    body = []
     for st in m.tree.body:
+        # `_B4, _B8 = 4, 8` is two bindings
+        if isinstance(st, ast.Assign) and len(st.targets) == 1 and isinstance(st.targets[0], (ast.Tuple, ast.List)) and isinstance(st.value, (ast.Tuple, ast.List)) \
+                and len(st.targets[0].elts) == len(st.value.elts) and all(isinstance(t, ast.Name) for t in st.targets[0].elts) \
+                and not any(isinstance(e, ast.Starred) for e in st.value.elts):
+            body += [ast.copy_location(ast.Assign(targets=[t], value=e), st) for t, e in zip(st.targets[0].elts, st.value.elts)]
+        elif isinstance(st, ast.AnnAssign) and st.value is not None and isinstance(st.target, ast.Name):
+            body.append(ast.copy_location(ast.Assign(targets=[st.target], value=st.value), st))
+        else:
+            body.append(st)
+    for st in body:
         if isinstance(st, ast.Assign) and len(st.targets) == 1 and isinstance(st.targets[0], ast.Name):
             try:
                 ast.literal_eval(st.value)
                 lit = True
             except Exception:  # noqa
-                lit = isinstance(st.value, ast.BinOp)
+                # arithmetic on literals and on constants bound earlier (`_B8 = 2 * _B4`, `_B = _EXPONENTS[0]`)
+                lit = all(isinstance(n, (ast.Constant, ast.BinOp, ast.UnaryOp, ast.Tuple, ast.List, ast.Subscript, ast.Slice, ast.operator, ast.unaryop, ast.expr_context))
+                          or (isinstance(n, ast.Name) and n.id in out) for n in ast.walk(st.value)) and not isinstance(st.value, ast.Constant)
             if not lit:
+                out.pop(st.targets[0].id, None)        # re-bound to something that is not a constant
                 continue
             if isinstance(st.value, ast.Constant) and st.value.value is None:
                 continue
@@ -607,7 +625,7 @@ def _module_consts(src, rel):
             if isinstance(v, tuple):
                 if any(is_unknown(x) or isinstance(x, tuple) for x in v):
                     continue
-            elif const_of(v) is None and not (isinstance(st.value, ast.Constant) and isinstance(st.value.value, str)):
+            elif const_of(v) is None and not (isinstance(st.value, ast.Constant) and isinstance(st.value.value, str)) and str_parts(v) is None:
                 continue
             out[st.targets[0].id] = v
     m._c10_consts = dict(out)
@@ -744,6 +762,10 @@ class XEval(AutoEvaluator):
                 return u[1][0] + ix
         if const_of(base) is not None and self._scalar_index(ix):
             return base                                     # an element / a row of a constant-filled array
+        if u is not None and u[0] == "comp" and len(u[1]) == 2 and not isinstance(u[1][0], str):
+            r = self._idx_comp(base, u, ix)
+            if r is not None:
+                return r
         u = app(base, "idx")
         if u is not None and not isinstance(u[1][0], str) and not isinstance(u[1][1], str):
             b0, i0 = u[1]
@@ -761,6 +783,32 @@ class XEval(AutoEvaluator):
                     new = first[:-1] + [ix + clo]
                     return F.fn("idx", b0, new[0] if len(new) == 1 else F.fn("tuple", *new))
         return F.fn("idx", need(base), ix)
+
+    def _idx_comp(self, base, u, ix):
+        """[f(j) for j in range(n)][k] is f(k);  np.array([[a(j), b(j)] for j ...])[:, 1] is [b(j) for j ...];  [j, 1] is b(j)"""
+        elt, dom = u[1]
+        t = app(ix, "tuple")
+        parts = list(t[1]) if t is not None else [ix]
+        if any(isinstance(p, str) for p in parts) or len(parts) > 2:
+            return None
+        var = self.tr.compvars.get((base.n.key(), base.d.key()))
+        row, rest = parts[0], parts[1:]
+        tu = app(elt, "tuple")
+        if rest:
+            c = const_of(rest[0])
+            if tu is None or c is None or c.denominator != 1 or not (-len(tu[1]) <= c < len(tu[1])) or isinstance(tu[1][int(c)], str):
+                return None
+            elt = tu[1][int(c)]
+        if _full_slice(row):
+            return self._mk_comp(var, elt, dom) if rest else base
+        if not self._scalar_index(row) or var is None:
+            return None
+        if depends(row, var):
+            return None
+        try:
+            return elt.subs({var: row})
+        except Unsupported:
+            return None
 
     def _lengths(self, base):
         """values that stand for the number of entries of `base` (a 1-D array): len(base), base.size, the size it was allocated with"""
@@ -862,6 +910,8 @@ class XEval(AutoEvaluator):
             return self._comp(node)
         if isinstance(node, (ast.List, ast.Tuple)) and len(node.elts) == 1 and isinstance(node.elts[0], ast.Starred):
             return self._ev(node.elts[0].value)                      # [*xs]: the elements of xs
+        if isinstance(node, (ast.List, ast.Tuple)) and len(node.elts) >= 2 and any(self._is_alloc(e) for e in node.elts):
+            return tuple(self._fresh_array(e) if self._is_alloc(e) else self.ev(e) for e in node.elts)      # (np.zeros(n), np.zeros(n)): two arrays
         if isinstance(node, ast.Lambda) and not node.args.vararg and not node.args.kwarg and not node.args.kwonlyargs:
             return F.sym(self._lambda(node, None))
         if isinstance(node, ast.DictComp):
@@ -992,11 +1042,50 @@ class XEval(AutoEvaluator):
             self._bind_target(target, itv if is_unknown(itv) else self.mk_idx(itv, k))
         return f"_i{self.loop_depth}", dom, itv
 
+    def _fresh_array(self, call):
+        """an allocation that is not bound to a name of its own (an element of a list of arrays): an array with a private name"""
+        k = self.tr.nver.get("<anon>", 0) + 1
+        self.tr.nver["<anon>"] = k
+        s = f"<arr:{k}>"
+        self.tr.inits[s] = self.ev(call)
+        try:
+            self.tr.allocs[s] = (dotted(call.func), [self.ev(a) for a in call.args if not isinstance(a, ast.Starred)], {k_.arg: self.ev(k_.value) for k_ in call.keywords if k_.arg})
+        except Unsupported:
+            pass
+        return F.sym(s)
+
+    def _is_alloc(self, node):
+        return isinstance(node, ast.Call) and dotted(node.func) in ALLOCATORS
+
+    def _literal_iter(self, node):
+        """the elements of an iterable that is a literal sequence of known length (a tuple / list display, a name bound to one, zip / enumerate /
+        reversed of those), else None; nothing is evaluated when it is not"""
+        if isinstance(node, (ast.Tuple, ast.List)):
+            if any(isinstance(e, ast.Starred) for e in node.elts):
+                return None
+            return tuple(self.ev(e) for e in node.elts)
+        if isinstance(node, ast.Name) and node.id not in self.buffers:
+            v = untuple(self.env.get(node.id))
+            return v if isinstance(v, tuple) else None
+        if isinstance(node, ast.Call) and not node.keywords and dotted(node.func) in ("zip", "enumerate", "reversed", "list", "tuple") and node.args:
+            parts = [self._literal_iter(a) for a in node.args]
+            if any(p is None for p in parts):
+                return None
+            d = dotted(node.func)
+            if d == "zip":
+                return tuple(zip(*parts)) if len({len(p) for p in parts}) == 1 else None
+            if len(parts) != 1:
+                return None
+            if d == "enumerate":
+                return tuple((F.const(i), x) for i, x in enumerate(parts[0]))
+            return tuple(reversed(parts[0])) if d == "reversed" else parts[0]
+        return None
+
     def _comp(self, node):
         if len(node.generators) != 1 or node.generators[0].is_async:
             return Unknown("nested comprehension")
         g = node.generators[0]
-        lit = untuple(self.ev(g.iter)) if isinstance(g.iter, (ast.Tuple, ast.List)) or (isinstance(g.iter, ast.Name) and isinstance(self.env.get(g.iter.id), tuple)) else None
+        lit = self._literal_iter(g.iter)
         if isinstance(lit, tuple) and len(lit) <= 12 and not g.ifs:
             # a comprehension over a literal sequence is the tuple of its elements
             saved = dict(self.env)
@@ -1004,7 +1093,7 @@ class XEval(AutoEvaluator):
             try:
                 for item in lit:
                     self._bind_target(g.target, item)
-                    out.append(self.ev(node.elt))
+                    out.append(self._fresh_array(node.elt) if self._is_alloc(node.elt) else self.ev(node.elt))
             finally:
                 self.env = saved
             return tuple(out)
@@ -1022,7 +1111,15 @@ class XEval(AutoEvaluator):
             self.env = saved
         if is_unknown(elt) or is_unknown(dom) or any(is_unknown(c) or isinstance(c, tuple) for c in conds):
             return elt if is_unknown(elt) else Unknown("comprehension domain")
-        return F.fn("comp", wrap(elt), need(dom), *[need(c) for c in conds])
+        try:
+            return self._mk_comp(name, wrap(elt), need(dom), *[need(c) for c in conds])
+        except Unsupported as e:
+            return Unknown(str(e))
+
+    def _mk_comp(self, var, elt, dom, *conds):
+        v = F.fn("comp", elt, dom, *conds)
+        self.tr.compvars[(v.n.key(), v.d.key())] = var
+        return v
 
     def _dictcomp(self, node):
         """{k: table[k] for k in <tuple of constants>} is expanded; `table` may be locals()"""
@@ -1121,7 +1218,7 @@ class XEval(AutoEvaluator):
             self.env = saved
         if is_unknown(elt) or is_unknown(dom):
             return elt if is_unknown(elt) else Unknown("map domain")
-        return F.fn("comp", wrap(elt), need(dom))
+        return self._mk_comp(name, wrap(elt), need(dom))
 
     def _call(self, node):
         if dotted(node.func) == "map" and len(node.args) >= 2 and not node.keywords and not any(isinstance(a, ast.Starred) for a in node.args):
@@ -1303,6 +1400,8 @@ class XEval(AutoEvaluator):
                     return x
                 args.append(F.fn("kw:" + k.arg, wrap(x)))
             return F.fn("call:np." + m, *args)
+        if not self.inline:
+            self._unfollowed(node)
         return super()._call(node)
 
     FLOAT_DTYPES = {"float", "np.float64", "np.double", "np.float_", "np.float32", "np.single", "np.longdouble", "numpy.float64", "numpy.float32",
@@ -1335,6 +1434,34 @@ class XEval(AutoEvaluator):
             self.tr.callx.append(dict(guard=tuple(self.path), loops=self._loops(), seq=self.tr.seq))
 
     def _inline_call(self, node):
+        r = self._inline_call0(node)
+        if r is NotImplemented:
+            self._unfollowed(node)
+        return r
+
+    def _unfollowed(self, node):
+        """a call of a function defined in the analysed module that is not followed (not in the rule's table, *args, too deep) and is handed an
+        array this evaluation tracks (or a view of one): what it stores there is not in the record"""
+        name = dotted(node.func)
+        own = getattr(self.fn, "_vmod", None)
+        if not name or "." in name or own is None or name not in getattr(own, "funcs", {}):
+            return
+        vals = []
+        for a in node.args:
+            vals.append(self.ev(a.value if isinstance(a, ast.Starred) else a))
+        for k in node.keywords:
+            vals.append(self.ev(k.value))
+        for v in vals:
+            for x in ([v] if not isinstance(v, tuple) else list(v)):
+                if x is None or is_unknown(x) or isinstance(x, (tuple, str)):
+                    continue
+                b, _ = peel(x)
+                sb = sym_of(b)
+                if sb is not None and (sb in self.tr.inits or any(c[0] == sb for c in self.tr.cells)):
+                    self.tr.lost.append((f"`{name}` is handed the array `{sb}` and is not followed", node))
+                    return
+
+    def _inline_call0(self, node):
         name = dotted(node.func)
         if isinstance(node.func, ast.Name) and node.func.id in self.env and (sym_of(self.env[node.func.id]) or "").startswith("<lambda:"):
             name = sym_of(self.env[node.func.id])                   # a local bound to a lambda (possibly chosen by a ternary the facts decide)
@@ -1418,14 +1545,17 @@ class XEval(AutoEvaluator):
 
     def _assign(self, target, v, st, aug=False):
         if isinstance(target, ast.Name) and target.id in self.buffers:
-            if not aug and sym_of(v) is not None and sym_of(v) in self.tr.inits:
+            val = getattr(st, "value", None)
+            copied = self._copies(val)           # `B = A.copy()` / np.array(A) / A.astype(t): a new array that starts with A's content
+            if not aug and not copied and sym_of(v) is not None and sym_of(v) in self.tr.inits:
                 self.env[target.id] = v         # `pv = PV`: a second name for the same array, not a new array
                 return
-            if not aug and self._view(v) is not None:
+            if not aug and not copied and self._view(v) is not None:
                 self.env[target.id] = v         # `row = X[j]`: stores into `row` are stores into X[j]
                 return
             sname = self._new_version(target.id, v)
-            val = getattr(st, "value", None)
+            if copied and sym_of(v) in self.tr.allocs:
+                self.tr.allocs[sname] = self.tr.allocs[sym_of(v)]          # same shape as the array it was copied from
             if isinstance(val, ast.Call) and dotted(val.func) in ALLOCATORS and not aug:
                 try:
                     self.tr.allocs[sname] = (dotted(val.func), [self.ev(a) for a in val.args if not isinstance(a, ast.Starred)],
@@ -1456,6 +1586,17 @@ class XEval(AutoEvaluator):
                     if pre and not is_unknown(ix):
                         t = app(ix, "tuple")
                         ix = norm_index(F.fn("tuple", *(pre + (list(t[1]) if t is not None else [ix]))))
+            if cur is not None and not is_unknown(cur) and not isinstance(cur, tuple) and sym_of(peel(cur)[0]) is None:
+                # the name does not hold (a view of) an array the evaluator knows: whatever this store changes is not in the record
+                self.tr.lost.append((f"store through `{nm}`, which holds {cur!r}"[:200], st))
+            if not aug and not is_unknown(ix) and (_full_slice(ix) or sym_of(ix) == "Ellipsis") and not self.path and not self.loopstack \
+                    and sym_of(cur) == root and root in self.tr.inits and not is_unknown(v) and not isinstance(v, tuple):
+                # `X[:] = v` outside loops and tests: every entry is overwritten (v broadcast over the rows), the shape stays
+                al = self.tr.allocs.get(root)
+                sname = self._new_version(nm, v)
+                if al is not None:
+                    self.tr.allocs[sname] = al
+                return
             self.tr.seq += 1
             self.seq = self.tr.seq
             self.cell_seq.append(self.tr.seq)
@@ -1477,6 +1618,14 @@ class XEval(AutoEvaluator):
                 break
             self.stmt(st)
         del self.path[n:]
+
+    def _run_keep(self, stmts):
+        """a block that is not a scope of its own for guards (the arm of a decided `if`, a `with` / `try` body): an early exit inside it
+        (`if bad: continue`) leaves its negated test in force for the rest of the *enclosing* block"""
+        for st in stmts:
+            if self.done or self.jump:
+                break
+            self.stmt(st)
 
     def _run_arm(self, stmts, entry):
         """run one arm under an extra guard entry; returns (env after, terminated)"""
@@ -1520,12 +1669,12 @@ class XEval(AutoEvaluator):
                 v = self.ev(it.context_expr)
                 if it.optional_vars is not None:
                     self._bind_target(it.optional_vars, v)
-            return self.run(st.body)
+            return self._run_keep(st.body)
         if isinstance(st, ast.Try):
-            self.run(st.body)
+            self._run_keep(st.body)
             if not (self.done or self.jump):
-                self.run(st.orelse)
-                self.run(st.finalbody)
+                self._run_keep(st.orelse)
+                self._run_keep(st.finalbody)
             return
         if isinstance(st, ast.FunctionDef):
             # a helper defined inside the function (a closure): followed like a module-level helper, reading the enclosing names
@@ -1579,11 +1728,21 @@ class XEval(AutoEvaluator):
         if ok:
             try:
                 conds = [need(c if pol else mk_not(c)) for c, pol in self.path[plen0:]]
-                self.env[name] = F.fn("comp", wrap(v), need(self.loopstack[-1][1]), *conds)
+                self.env[name] = self._mk_comp(self.loopstack[-1][0], wrap(v), need(self.loopstack[-1][1]), *conds)
                 return
             except Unsupported:
                 pass
         self.env[name] = Unknown(f"list {name} built in a way that is not one append per iteration")
+
+    COPY_CALLS = {"np.copy", "np.array", "numpy.array", "numpy.copy", "copy.copy", "copy.deepcopy", "np.ascontiguousarray"}
+
+    def _copies(self, val):
+        """does the expression node make a new array out of an existing one (so that stores into the result leave the source alone)"""
+        if not isinstance(val, ast.Call):
+            return False
+        if isinstance(val.func, ast.Attribute) and val.func.attr in ("copy", "astype", "flatten") and dotted(val.func) not in ("np.copy", "copy.copy"):
+            return True
+        return dotted(val.func) in self.COPY_CALLS and len(val.args) >= 1
 
     def _rank(self, s, depth=3):
         """number of axes of a buffer symbol when its allocation (or that of the array it was made from) shows it"""
@@ -1685,9 +1844,9 @@ class XEval(AutoEvaluator):
         c = self.truth(tv)
         self.tr.tests.append((tv, st.test, tuple(self.path), "if"))
         if c is True:
-            return self.run(st.body)
+            return self._run_keep(st.body)
         if c is False:
-            return self.run(st.orelse)
+            return self._run_keep(st.orelse)
         if is_unknown(tv) or isinstance(tv, tuple):
             # a test that cannot be lowered: both arms are still visited (their stores are recorded) but nothing is known after
             tv = F.fn("opaque-test", ast.unparse(st.test))
@@ -1731,6 +1890,12 @@ class XEval(AutoEvaluator):
             else:
                 merged[k] = mk_ite(ca, a, b)
         self.env = merged
+        if kept_a or kept_b:
+            try:
+                alive = F.fn("bool:Or", need(conj([(tv, True)] + kept_a)), need(conj([(tv, False)] + kept_b)))
+            except Unsupported:
+                alive = F.fn("opaque-test", ast.unparse(st.test))
+            self.path.append((alive, True))
 
     def _carried(self, body_nodes):
         """names bound inside a loop body that already have a value: loop-carried, fresh symbols for the generic iteration"""
@@ -1744,6 +1909,17 @@ class XEval(AutoEvaluator):
                 self.env[nm] = F.sym(f"<{nm}>")
 
     def _for(self, st):
+        lit = self._literal_iter(st.iter)
+        if isinstance(lit, tuple) and len(lit) <= 12 and not st.orelse and not any(isinstance(n, ast.Break) for n in ast.walk(st)) \
+                and not any(is_unknown(x) for x in lit):
+            # `for di, b in zip(indicators, (4, 8, 12))`: one pass per element, the targets bound to the elements themselves
+            for item in lit:
+                self._bind_target(st.target, item)
+                self.run(st.body)
+                self.jump = None
+                if self.done:
+                    break
+            return
         self._carried(st.body)
         name, dom, itv = self._iter_bind(st.target, st.iter)
         self.tr.loops.append((name, dom, itv, st))
@@ -1802,6 +1978,8 @@ class XSem:
             self.ev.inline = {k: v for k, v in inline.items() if v is not fn}
         self.consts = dict(consts or {})
         self.ev.tr.dtypes = bool(dtypes)
+        if hasattr(ctx, "traces"):
+            ctx.traces.append(self.ev.tr)          # c10.Careful: a failed comparison is a verdict only if no effect was lost on the way
         if run:
             self.ev.run(fn.body if body is None else body)
         self.tr = self.ev.tr
